@@ -56,7 +56,7 @@ def pathheap_cases(chk, events):
         real = am.g_schema(s)
         v_real = value(tree, d)
         ev = valgen.observe_validate(real, v_real)
-        ev.update({"id": len(events) + 1, "s": s, "v": am.a_value(v_real), "srepr": repr(real)[:200],
+        ev.update({"id": len(events) + 1, "s": s, "v": am.a_value(v_real), "srepr": safe_repr(real)[:200],
                    "vrepr": safe_repr(v_real)[:200]})
         events.append(ev)
         n += 1
@@ -67,7 +67,7 @@ def pathheap_cases(chk, events):
         if len(ev["errs"]) != len(model_paths) or real_paths != model_paths:
             chk.drift += 1
             if len(chk.drift_samples) < 5:
-                chk.drift_samples.append({"what": "PathHeap paths differ", "value": repr(v_real),
+                chk.drift_samples.append({"what": "PathHeap paths differ", "value": safe_repr(v_real),
                                           "model": model_paths, "real": real_paths})
     chk.count("pathheap_traversals", n)
     chk.require(n >= 30, "too few PathHeap traversals (%d)" % n)
@@ -107,7 +107,7 @@ def run(chk, prop):
                 continue
             seen.add(k)
             ev = valgen.observe_validate(real, v_real)
-            ev.update({"id": len(events) + 1, "s": s, "v": v_abs, "srepr": repr(real)[:300],
+            ev.update({"id": len(events) + 1, "s": s, "v": v_abs, "srepr": safe_repr(real)[:300],
                        "vrepr": safe_repr(v_real)[:200]})
             events.append(ev)
             chk.count("accepted" if (ev["exc"] == "" and ev["nerrs"] == 0) else
@@ -143,7 +143,7 @@ def run(chk, prop):
                 except am.Unrepresentable:
                     continue
                 ev = valgen.observe_validate(real, v_real)
-                ev.update({"id": len(events) + 1, "s": s, "v": v_abs, "srepr": repr(real)[:300],
+                ev.update({"id": len(events) + 1, "s": s, "v": v_abs, "srepr": safe_repr(real)[:300],
                            "vrepr": safe_repr(v_real)[:200]})
                 events.append(ev)
                 chk.count("deep_pairs")
